@@ -82,7 +82,13 @@ func (b *boundsSink) sink(f absint.Finding) {
 	form, ord := b.siteNormal(f.Site)
 	key := fmt.Sprintf("%s root=%s :: %s %s", rule, b.root, core.FuncName(fn), form)
 	if rule == "capacity" {
-		key = fmt.Sprintf("%s %s %s", rule, core.FuncName(fn), form)
+		// the capacity dependence of a getter itself is one construct whatever IsValid state it was analysed under;
+		// the same getter reached from another root (Parse, a handler) is a different construct: a new dependence
+		own := fn.Signature.Recv() != nil && strings.HasSuffix(b.root, ")."+fn.Name()+" after IsValid") &&
+			strings.Contains(core.FuncName(fn), "."+strings.TrimSuffix(strings.TrimPrefix(b.root, "("), ")."+fn.Name()+" after IsValid")+")")
+		if own {
+			key = fmt.Sprintf("%s %s %s", rule, core.FuncName(fn), form)
+		}
 	}
 	if ord > 0 {
 		key += fmt.Sprintf(" #%d", ord)
